@@ -58,6 +58,13 @@ theorem dow_of_date (y m d : Int) (f : ℚ) (hv : Valid y m d) (hf0 : 0 ≤ f) (
   rw [compute_jde_frac y m d f hf0 hf1 hv]
   apply dow_constant_on_civil_day <;> linarith
 
+/-- General form for ANY triple (civil date or not): the weekday is that of the day number `jdnP` the
+    code assigns (= `jdnI` for every civil date, `jdnP_valid`; 5..14 October 1582 are read as Julian dates). -/
+theorem dow_of_any_triple (y m d : Int) (f : ℚ) (hf0 : 0 ≤ f) (hf1 : f < 1) :
+    dow (compute_jde y m ((d : ℚ) + f)) = (jdnP y m d + 1) % 7 := by
+  rw [compute_jde_frac_gen y m d f hf0 hf1]
+  apply dow_constant_on_civil_day <;> linarith
+
 /-- "advancing by one each day" -/
 theorem dow_next_day (j : ℚ) : dow (j + 1) = (dow j + 1) % 7 := by
   rw [dow_formula, dow_formula]
